@@ -9,6 +9,8 @@
 //   equivpt <kind> <dag1> <dag2> <pt> => 1                                 same dimensions, same exact value where dag1 is defined
 #include "common.h"
 #include "expr_io.h"
+#include "mp_dag.h"
+#include "elem_gen.h"
 #include <typeinfo>
 #include <sys/resource.h>
 #include <sys/wait.h>
@@ -177,12 +179,61 @@ static Built build_linalg(Rng& r, bool outer = true) {
   return b;
 }
 
+// ---- gradients / symbolic derivatives of expressions with elementary functions, judged by MPFR forward differentiation (mp_dag.h)
+//   gradt <dag> <box> <pt> <oracle enclosures of the partial derivatives at pt, ';'-separated> => <gradient over the box>
+//   difft <dag> <pt> <oracle enclosures (derivative of f at pt)> => <MPFR enclosures of the library's symbolic derivative at pt | U>
+static string enc_tok(const vector<double>& lo, const vector<double>& hi) { string s; for (size_t i = 0; i < lo.size(); i++) { if (i) s += ";"; s += hex(lo[i]) + ":" + hex(hi[i]); } return s; }
+static void wl_elem(Rng& r, long n, bool symbolic) {
+  for (long it = 0; it < n; it++) {
+    try {
+      int nv = r.range(1, 3);
+      GenCfg cfg; cfg.allow_vec = false; cfg.allow_apply = false; cfg.allow_div = r.coin(40); cfg.max_depth = 2; cfg.differentiable = true;
+      ExprGen g(r, cfg);
+      Array<const ExprSymbol> args(nv);
+      for (int i = 0; i < nv; i++) { const ExprSymbol& s = ExprSymbol::new_(("x" + to_string(i)).c_str(), Dim::scalar()); args.set_ref(i, s); g.syms.push_back(&s); }
+      const ExprNode& e = gen_elem(r, g, r.range(1, 3));
+      string dag = dump_expr(e, args);
+      Function f(args, e, "f");
+      if (!symbolic) {
+        for (int k = 0; k < 3; k++) {
+          IntervalVector box(nv);
+          for (int i = 0; i < nv; i++) { double c = r.coin(70) ? r.range(-16, 16) / 8.0 : r.range(-200, 200) / 8.0; double w = r.coin(30) ? 0 : (r.coin() ? std::ldexp(1.0, -(int)r.range(1, 30)) : r.range(1, 8) / 8.0); box[i] = Interval(c - w, c + (r.coin(20) ? 0 : w)); }
+          if (r.coin(40)) { IntervalVector other(nv); for (int i = 0; i < nv; i++) other[i] = Interval(r.range(-64, 0) / 4.0, r.range(0, 64) / 4.0); try { f.gradient(other); } catch (...) {} }   // history
+          IntervalVector gr = f.gradient(box);
+          check_round_up("gradient-elementary");
+          IntervalMatrix J = f.jacobian(box);
+          for (int j = 0; j < 4; j++) {
+            Vector p = j < 3 ? point_in(r, box) : box.mid(); bool fin = true; for (int i = 0; i < nv; i++) if (!(std::fabs(p[i]) <= DBL_MAX) || !box[i].contains(p[i])) fin = false; if (!fin) continue;
+            vector<double> lo, hi; if (!mp_grad(e, args, p, lo, hi)) { EMIT("gradt %s %s %s U => -\n", dag.c_str(), tok(box).c_str(), ptok(p).c_str()); continue; }
+            EMIT("gradt %s %s %s %s => %s\n", dag.c_str(), tok(box).c_str(), ptok(p).c_str(), enc_tok(lo, hi).c_str(), gr.is_empty() ? "E" : tok(gr).c_str());
+            EMIT("gradt %s %s %s %s => %s\n", dag.c_str(), tok(box).c_str(), ptok(p).c_str(), enc_tok(lo, hi).c_str(), J.is_empty() ? "E" : tok(IntervalVector(J[0])).c_str());
+          }
+        }
+      } else {
+        const Function& df = f.diff();
+        for (int j = 0; j < 5; j++) {
+          Vector p(nv); for (int i = 0; i < nv; i++) p[i] = r.coin(70) ? r.range(-32, 32) / 16.0 : r.range(-400, 400) / 16.0;
+          vector<double> lo, hi; if (!mp_grad(e, args, p, lo, hi)) { EMIT("difft %s %s U => -\n", dag.c_str(), ptok(p).c_str()); continue; }
+          // the library's derivative, evaluated with the same oracle arithmetic, component by component
+          vector<double> dlo, dhi; bool okd = true;
+          for (int i = 0; i < nv && okd; i++) { const ExprNode& ci = nv == 1 ? df.expr() : (df.expr().dim.is_scalar() ? df.expr() : df[i].expr()); const Array<const ExprSymbol>& ai = (nv == 1 || df.expr().dim.is_scalar()) ? df.args() : df[i].args();
+            double a, b2; if (!mp_eval(ci, ai, p, a, b2)) okd = false; else { dlo.push_back(a); dhi.push_back(b2); } }
+          EMIT("difft %s %s %s => %s\n", dag.c_str(), ptok(p).c_str(), enc_tok(lo, hi).c_str(), okd ? enc_tok(dlo, dhi).c_str() : "U");
+        }
+      }
+    } catch (ExprDiffException& ex) { EMIT("diffunsupported x => 0\n"); }
+      catch (VerifAbort& a) { EMIT("harnesserror elem abort => 0\n"); }
+      catch (std::exception& ex) { EMIT("harnesserror elem %s => 0\n", typeid(ex).name()); }
+  }
+}
+
 int main(int argc, char** argv) {
   { struct rlimit rl; rl.rlim_cur = rl.rlim_max = (rlim_t)6 << 30; setrlimit(RLIMIT_AS, &rl); }   // a blow-up of the symbolic layer ends with bad_alloc, not with swapping
   string wl = argc > 1 ? argv[1] : "c08";
   uint64_t seed = argc > 2 ? strtoull(argv[2], 0, 10) : 1;
   long n = argc > 3 ? atol(argv[3]) : 200;
   Rng r0(seed * 86028121 + 9);
+  if (wl == "c08t" || wl == "c12t") { Rng rr(seed * 86028121 + (wl == "c08t" ? 21 : 23)); wl_elem(rr, n, wl == "c12t"); fprintf(stderr, "emitted %ld\n", emitted); return 0; }
   string cur;
   // the symbolic workloads run each iteration in a forked child with a CPU-time limit: the polynomial expansion of the
   // simplification levels 2-3 is documented to blow up (time or memory) on some expressions; such a case is reported
